@@ -15,6 +15,17 @@ ID = "C24"
 LEAN_TARGETS = ["TornadoModel.C24.Props", "TornadoModel.C24.SpecLink"]
 THEOREMS = [
     "TornadoModel.C24.issued_accepted",
+    "TornadoModel.C24.session_issued_accepted_partial",
+    "TornadoModel.C24.session_issued_accepted_refuted",
+    "TornadoModel.C24.session_all_accepted",
+    "TornadoModel.C24.issue_step",
+    "TornadoModel.C24.issue_step_carried",
+    "TornadoModel.C24.carried_token_accepted",
+    "TornadoModel.C24.issued_carries",
+    "TornadoModel.C24.issued_tokenFor",
+    "TornadoModel.C24.decode_issued_stamp",
+    "TornadoModel.C24.decode_inv",
+    "TornadoModel.C24.pyInt_digits",
     "TornadoModel.C24.decode_issued",
     "TornadoModel.C24.decode_issue_v1",
     "TornadoModel.C24.decode_issue_v2",
@@ -61,8 +72,13 @@ CLAUSES = {
                                   "server's own fresh randomness) + accept_iff + no_cookie_needs_fresh + "
                                   "pick_form/pick_h1/pick_h2; reaching the handler, GET/HEAD/OPTIONS: tie only",
     "every token the application issues for a cookie (any version, any mask) is accepted with that cookie":
-        "issued_accepted + decode_issued (every secret, mask, timestamp, version pair); session form "
-        "session_issued_accepted_goal — tie only (issue stream)",
+        "issued_accepted + decode_issued (every secret, mask, timestamp, version pair); session form: "
+        "session_issued_accepted_partial (request 1 renders a token under any cookie state / version / mask / time, "
+        "request 2 presents it with the cookie then in force: accepted) and session_all_accepted (any number of "
+        "token-rendering requests with changing version settings, masks, clocks: every token issued is accepted with "
+        "the cookie in force at the end), for every cookie that is a Python str (code points < 0x110000); the statement "
+        "over raw naturals is refuted in the model by a non-Unicode code point (session_issued_accepted_refuted) - a "
+        "model artefact, not a defect; also exercised by the issue stream",
     "malformed tokens or cookies yield 403, never a server error": "decode_total + malformed_refused (model); status "
                                                                    "codes and absence of logged errors: tie only",
 }
